@@ -353,7 +353,7 @@ def main(tier):
                     cls = 'C16.typed/%s/%s' % (SUBNAME[st], 'unparsable-accepted' if unp else 'wrong-value')
                     run.violation(cls, '%s value %r: expected %s, the setting delivers %r' % (SUBNAME[st], text, want, got),
                                   {'engine': 'conf', 'typed': [st, text], 'expected': want}, dedup=cls)
-    if (n_ok < 1000 or n_typed < 500) and not run.violations:
+    if (n_ok < 1000 or n_typed < 500) and not run.violations and not run.capped:
         raise common.HarnessError('vacuous: %d files read back correctly, %d typed values' % (n_ok, n_typed))
     cov = {'evaluations': nfiles + n_typed, 'distinct_nontrivial': len(distinct) + n_typed,
            'rule': 'one evaluation = one generated file loaded by the real conf_read() into an empty tree in a fresh fork and compared with its generating tree (or one typed value '
